@@ -95,7 +95,7 @@ func genHistory(prop string, seed uint64, index int, tier string) *HScenario {
 	r := newRng(seed)
 	sc := &HScenario{Engine: "history", Prop: prop, Seed: seed, Index: index}
 	pr := r.fork(1)
-	sc.Pattern = pick(pr, corpus)
+	sc.Pattern = pickPattern(pr)
 	if pr.p(1, 4) {
 		sc.Pattern = mutatePattern(pr, sc.Pattern)
 	}
@@ -105,6 +105,7 @@ func genHistory(prop string, seed uint64, index int, tier string) *HScenario {
 		sc.Knobs.Longest = false // the mode is driven by steps
 	}
 	re := parsePattern(sc.Pattern)
+	genASCII = r.fork(9).p(1, 3) // a third of the scenarios: 7-bit haystacks (ASCII-only fast paths)
 	alpha := patternAlphabet(sc.Pattern)
 	hr := r.fork(3)
 	nh := hr.between(2, 6)
